@@ -419,6 +419,11 @@ def run_batch(case, ctx):
                 drifts += 1
                 ctx.count("batch_drifts")
                 pending_ref = X
+                if f32:
+                    # the adopted batch is single precision: from here on the tree is built in single precision and where a point on a
+                    # decimal grid falls relative to a midpoint is a matter of float32 rounding, not of the property - the history ends
+                    ctx.count("single_precision_histories_ended_at_first_drift")
+                    break
             else:
                 nodrift += 1
     ctx.nontrivial = drifts >= 1 and nodrift >= 1
